@@ -220,6 +220,12 @@ impl Params {
                 w[SCOPED] = 5;
                 wtop = [70, 4, 4, 2, 1, 3, 10];
             }
+            "C15" => {
+                w[MUT_HELPERS] = 20;
+                w[PREPARED_SLICE] = 20;
+                w[PREPARED] = 10;
+                w[SCOPED] = 6;
+            }
             "C07" => {
                 w[RESERVE] = 5;
                 w[SESSION] = 6;
